@@ -504,6 +504,15 @@ where
         let last_symbol = cdf.last().expect("cdf is not empty").1.clone();
         cdf.push((wrapping_pow2(PRECISION), last_symbol));
 
+        // `IterableEntropyModel` is a safe trait, so we must not rely on the provided symbol table
+        // being normalized for memory safety: `quantile_function` indexes into `lookup_table`
+        // without bounds check for all quantiles below `1 << PRECISION`.
+        assert_eq!(
+            lookup_table.len(),
+            1usize << PRECISION,
+            "Probabilities in the symbol table must add up to `1 << PRECISION`."
+        );
+
         Self {
             lookup_table: lookup_table.into_boxed_slice(),
             cdf,
